@@ -255,6 +255,7 @@ type c01Obs struct {
 	Rows  []c01E
 	FRows []c01Row // rows of a changesFeed run
 	Err   bool
+	Runaway bool // the run had to be stopped (row flood or watchdog)
 }
 
 func (o c01Obs) coq() string {
@@ -312,6 +313,9 @@ func (c *c01Comp) feed(sc SingleChannelCache, o c01Op) (rows []c01Row, ok bool) 
 	c.col.dbCtx.Options.CacheOptions.ChannelQueryLimit = o.QLimit
 	ctx, cancel := context.WithCancel(c.ctx)
 	defer cancel()
+	// a loop that never advances may also emit nothing (every row suppressed): stop it after a while
+	watchdog := time.AfterFunc(5*time.Second, func() { c.runaway = true; cancel() })
+	defer watchdog.Stop()
 	q0 := c.qh.queries
 	h0 := c01Stats.ChannelCacheHits.Value() + c01Stats.ChannelCacheMisses.Value()
 	ok = true
@@ -430,7 +434,8 @@ func (c *c01Comp) apply(o c01Op) c01Obs {
 		if o.K == "FD" && c.qh.queries > q0 {
 			c.hitBackfill = true
 		}
-		ob := c01Obs{VF: c.cache.validFrom, Logs: c01FromLogs(c.cache.logs), Out: "RFeed " + c01RowsCoq(fr), FRows: fr, Err: !ok}
+		ob := c01Obs{VF: c.cache.validFrom, Logs: c01FromLogs(c.cache.logs), Out: "RFeed " + c01RowsCoq(fr), FRows: fr, Err: !ok && !c.runaway, Runaway: c.runaway}
+		c.runaway = false
 		if c.cache.validFrom > c.vf0 {
 			c.hitPrune = true
 		}
@@ -598,8 +603,11 @@ func c01CheckFeed(o c01Op, ob c01Obs, B, F []c01E, quiescent bool) *c01Fail {
 		return &c01Fail{"changes_feed.error_entry", "the feed sent an error entry"}
 	}
 	rows := ob.FRows
-	if len(rows) > 4*len(B)+20 {
-		return &c01Fail{"changes_feed.runaway", fmt.Sprintf("the feed did not terminate: %d rows for %d writes, first rows %s", len(rows), len(B), c01RowsString(rows[:6]))}
+	if ob.Runaway || len(rows) > 4*len(B)+20 {
+		if len(rows) > 6 {
+			rows = rows[:6]
+		}
+		return &c01Fail{"changes_feed.runaway", fmt.Sprintf("the feed did not terminate (stopped by the harness): %d writes in the channel, first rows %s", len(B), c01RowsString(rows))}
 	}
 	safe := SequenceID{TriggeredBy: o.Trig, LowSeq: o.Low, Seq: o.Since}.SafeSequence()
 	for i, r := range rows {
@@ -1701,13 +1709,26 @@ func (s *c01Sys) run(q c01Req) ([]c01Row, bool) {
 	}
 	ctx, cancel := context.WithCancel(s.ctx)
 	defer cancel()
+	stopped := false
+	watchdog := time.AfterFunc(30*time.Second, func() { stopped = true; cancel() }) // a one-shot request that never ends
+	defer watchdog.Stop()
 	feed, err := col.MultiChangesFeed(ctx, set, ChangesOptions{Since: q.Since, Limit: q.Limit, ActiveOnly: q.AO, ChangesCtx: ctx})
 	if err != nil || feed == nil {
 		return nil, false
 	}
 	var rows []c01Row
 	ok := true
+	defer func() {
+		if stopped {
+			s.fail("changes.request_does_not_terminate", "one-shot", map[string]any{"history": s.histDesc(), "request": q.String(), "cache": s.cfg}, "a one-shot request had not finished after 30 s and was cancelled by the harness")
+		}
+	}()
 	for e := range feed {
+		if len(rows) > 10000 {
+			stopped = true
+			cancel()
+			break
+		}
 		if e == nil {
 			continue
 		}
